@@ -12,7 +12,8 @@ RULE = ("rule sets of 1-25 rules spread over 1-3 synthetic modules (several shar
         "a body outcome (each make_* constructor, None, a non-response object, an exception, a deliberate skip, a constructor "
         "call with a None/''/int/bytes key, a reserved argument name, payloads sized limit-1/limit/limit+1 for the default "
         "and for a lowered size limit); evaluated by SingleEvaluator (serial, incremental, incremental+pool), "
-        "InsightsEvaluator, JsonFormat and YamlFormat under every missing/show_rules combination; the response is checked by "
+        "InsightsEvaluator, JsonFormat and YamlFormat under every missing/show_rules combination, JsonFormat also with "
+        "render_content over rules whose content template renders / has an undefined variable / raises / does not parse; the response is checked by "
         "counting against the expected multiset; one evaluation = (rule set, evaluator variant); non-trivial = >= 3 rules "
         "with >= 3 distinct outcome kinds; distinct by hash of (rule set, variant)")
 ASSUMPTIONS = [
